@@ -289,6 +289,19 @@ def check_value(ctx, tname, jv, fmt=None, jmap=None):
         return
     if not same(back, v):
         ctx.violation(f"roundtrip-changed/{tname}", f"{v!r} -> {s!r} -> {back!r}", w)
+        return
+    # converter.test (used for default values and samples): the converter's own output must pass even the strict test
+    # ("the string output also matches the input"), with or without surrounding XML whitespace
+    if not isinstance(v, enum.Enum) and tname not in ("datetime", "date", "time"):
+        for text in (s, f" {s}\n"):
+            try:
+                ok = c.test(text, [T], strict=True, **kw)
+            except Exception as e:  # noqa: BLE001
+                ctx.violation(f"strict-test-raises/{tname}", f"converter.test({text!r}, [{tname}], strict=True) raised {type(e).__name__}: {e}", w)
+                break
+            if not ok:
+                ctx.violation(f"strict-test-rejects-own-output/{tname}", f"converter.test({text!r}, [{tname}], strict=True, {kw}) is False although serialize({v!r}) = {s!r}", w)
+                break
 
 
 def check_lexical(ctx, tname, s, jexp, fmt=None, jmap=None):
